@@ -28,6 +28,8 @@ def run(ctx):
     ctx.assumptions += ["declared collections are re-iterable (list, tuple, range, numpy array); scalars, None and strings are single values",
                         "values are compared through stable tokens (type tag + value)"]
     ctx.model_check(_batch.MC, "Batch_C14.cfg")
+    if not q:
+        ctx.model_check(_batch.MC, "Batch_C14_thorough.cfg", timeout=3000)      # 4 names, 4 declarations: 1.3 M states
     spec_to_code(ctx, "Batch_C14_mbt.cfg")
     n = 1500 if q else 15000
     progs = [B.random_params_program(ctx.rng, length=ctx.rng.choice([4, 8, 12])) for _ in range(n)]
